@@ -58,6 +58,7 @@ def run(ctx):
     J.verbatim_payload(ctx, 'C02.D3', entries, fn)
     J.time_fields_exact(ctx, 'C02.D5', entries, fn)
     J.number_branch(ctx, 'C02.D2', entries, fn)
+    J.parse_scalar_entry(ctx, 'C02.D2')
     # a pre-decoded document can be parsed again: the reader consumes private copies only (clause shared with C05.D3)
     from . import c05
     c05._freshness(ctx, rule='C02.D6')
@@ -65,6 +66,9 @@ def run(ctx):
     c16.mapping_overrides(ctx, ctx.model, rule='C02.D6')
     _assembly(ctx)
     J.dumps_call(ctx, 'C02.D6')
+    # a list of grids is dumped grid for grid (clauses shared with C06.D1)
+    from . import c06
+    c06._shape(ctx, rule='C02.D6')
     J.loads_calls(ctx, 'C02.D6')
     _zinc.version_threading(ctx, 'C02.D4', 'jsondumper')
     _zinc.header_version(ctx, 'C02.D6', 'jsondumper')
